@@ -312,13 +312,26 @@ func (ex *Exec) binop(op token.Token, a, b Value, ta, tb types.Type, site ssa.In
 	}
 	// address arithmetic
 	if aa, ok := a.(Addr); ok {
-		return ex.addrBinop(op, aa, b, site)
-	}
-	if ba, ok := b.(Addr); ok {
-		if op == token.ADD {
-			return ex.addrBinop(op, ba, a, site)
+		if r := ex.addrBinop(op, aa, b, site); r != nil {
+			return r
 		}
-		ex.unsupported("address on the right of %s", op)
+		// arithmetic that is not meaningful on addresses (garbage computed from stale data):
+		// fall back to the flat integer view of the address (an over-approximation)
+		a = ex.flatAddr(aa)
+		if ba, ok := b.(Addr); ok {
+			b = ex.flatAddr(ba)
+		} else if bp, ok := b.(Pointer); ok {
+			if fa, ok := ex.ptrToAddr(bp).(Addr); ok {
+				b = ex.flatAddr(fa)
+			}
+		}
+	} else if ba, ok := b.(Addr); ok {
+		if op == token.ADD {
+			if r := ex.addrBinop(op, ba, a, site); r != nil {
+				return r
+			}
+		}
+		b = ex.flatAddr(ba)
 	}
 	switch x := a.(type) {
 	case *Term:
@@ -592,6 +605,75 @@ func (ex *Exec) intBinop(op token.Token, x, y *Term, ta, tb types.Type, site ssa
 	return nil
 }
 
+// flatAddr is the integer view of an address: a per-object base plus the offset. Bases are
+// solver variables constrained only by what the Go memory model guarantees: objects are
+// non-null, do not wrap around and do not overlap.
+func (ex *Exec) flatAddr(a Addr) *Term {
+	if a.Obj == nil {
+		return a.Off
+	}
+	base := ex.flatBase(a.Obj)
+	if ex.intMode {
+		return ex.ts.IntBin("+", base, a.Off)
+	}
+	return ex.ts.BVBin("bvadd", base, a.Off)
+}
+
+type flatBaseInfo struct {
+	v    *Term
+	size int64
+}
+
+func (ex *Exec) flatBase(o *Object) *Term {
+	if fb, ok := ex.flatBases[o.ID]; ok {
+		return fb.v
+	}
+	ts := ex.ts
+	size := int64(1)
+	func() {
+		defer func() { recover() }()
+		if o.Typ != nil {
+			if sz := sizes.Sizeof(o.Typ); sz > 0 {
+				size = sz
+			}
+		}
+	}()
+	var v *Term
+	le := func(a, b *Term) *Term {
+		if ex.intMode {
+			return ts.IntCmp("<=", a, b)
+		}
+		return ts.BVCmp("bvule", a, b)
+	}
+	add := func(a *Term, k int64) *Term {
+		if ex.intMode {
+			return ts.IntBin("+", a, ts.IntConst64(k))
+		}
+		return ts.BVBin("bvadd", a, ts.BVConst(64, uint64(k)))
+	}
+	konst := func(k int64) *Term {
+		if ex.intMode {
+			return ts.IntConst64(k)
+		}
+		return ts.BVConst(64, uint64(k))
+	}
+	if ex.intMode {
+		v = ts.Var(fmt.Sprintf("base:obj%d", o.ID), IntSort)
+	} else {
+		v = ts.Var(fmt.Sprintf("base:obj%d", o.ID), BV(64))
+	}
+	c := ts.And(le(konst(4096), v), le(v, konst(1<<46)))
+	for _, other := range ex.flatBases {
+		c = ts.And(c, ts.Or(le(add(v, size), other.v), le(add(other.v, other.size), v)))
+	}
+	if ex.flatBases == nil {
+		ex.flatBases = map[int]flatBaseInfo{}
+	}
+	ex.flatBases[o.ID] = flatBaseInfo{v: v, size: size}
+	ex.assertPC(c)
+	return v
+}
+
 func (ex *Exec) addrBinop(op token.Token, a Addr, b Value, site ssa.Instruction) Value {
 	ts := ex.ts
 	switch y := b.(type) {
@@ -614,10 +696,7 @@ func (ex *Exec) addrBinop(op token.Token, a Addr, b Value, site ssa.Instruction)
 		}
 	case Addr:
 		if a.Obj != y.Obj {
-			if op == token.SUB {
-				ex.unsupported("difference of addresses in different objects (%s, %s) at %s", a.Obj, y.Obj, ex.posOf(site))
-			}
-			ex.unsupported("ordering of addresses in different objects at %s", ex.posOf(site))
+			return nil // different objects: the caller falls back to the flat integer view
 		}
 		switch op {
 		case token.SUB:
@@ -634,7 +713,6 @@ func (ex *Exec) addrBinop(op token.Token, a Addr, b Value, site ssa.Instruction)
 	case Pointer:
 		return ex.addrBinop(op, a, ex.ptrToAddr(y), site)
 	}
-	ex.unsupported("address binop %s with %T at %s", op, b, ex.posOf(site))
 	return nil
 }
 
